@@ -296,9 +296,54 @@ class Aw(object):
         self.n = n
 
 
+class DCW(object):
+    """generator-side marker: an instance of dict SUBCLASS number n (WAITER_DICTS) holding these items"""
+    def __init__(self, n, items):
+        self.n, self.items = n, items
+
+
+class Dict2(dict):
+    """a user dict subclass whose constructor does not take a mapping: Dict2(name, items)"""
+    def __init__(self, name, items=()):
+        super().__init__(items)
+        self.name = name
+
+
+# review w5 F2 (C19-F17): the dict classes `waiter` opens (isinstance(value, dict)): a class whose constructor does not take a single mapping
+# (defaultdict: first argument the default factory; Dict2) cannot be rebuilt as type(value)(dict), Counter.update ADDS instead of assigning
+WAITER_DICTS = {1: 'OrderedDict', 2: 'defaultdict', 3: 'Counter', 4: 'Dict2', 5: 'Dict', 6: 'dictattr'}
+
+
+def waiter_dict(n, items):
+    import pyg_base
+    if n == 2:
+        return collections.defaultdict(int, items)
+    if n == 4:
+        return Dict2('its-name', items)
+    return {1: collections.OrderedDict, 3: collections.Counter, 5: pyg_base.Dict, 6: pyg_base.dictattr}[n](items)
+
+
+_AWAITED = object()
+
+
+def same_classes(orig, res):
+    """'the same nested structure': wherever the awaited structure holds a list / tuple / dict, the result holds a container of exactly that
+    class with the same keys (a defaultdict with its default_factory, a Dict2 with its name); the positions of awaitables hold whatever they returned"""
+    if orig is _AWAITED:
+        return True
+    if isinstance(orig, dict):
+        return (type(res) is type(orig) and list(res.keys()) == list(orig.keys()) and getattr(res, 'default_factory', None) is getattr(orig, 'default_factory', None)
+                and getattr(res, 'name', None) == getattr(orig, 'name', None) and all(same_classes(orig[k], res[k]) for k in orig))
+    if isinstance(orig, (list, tuple)):
+        return type(res) is type(orig) and len(res) == len(orig) and all(same_classes(x, y) for x, y in zip(orig, res))
+    return True
+
+
 def enc_w(v):
     if isinstance(v, Aw):
         return '(A %d)' % v.n
+    if isinstance(v, DCW):
+        return '(DC %d' % v.n + ''.join(' (%s %s)' % (proto.hexs(k), enc_w(x)) for k, x in v.items.items()) + ')'
     if isinstance(v, list):
         return '(L' + ''.join(' ' + enc_w(x) for x in v) + ')'
     if isinstance(v, tuple):
@@ -320,11 +365,14 @@ def dec_w(sx, mk):
         return tuple(dec_w(y, mk) for y in rest)
     if head == 'D':
         return {proto.unhex(kv[0]): dec_w(kv[1], mk) for kv in rest}
+    if head == 'DC':
+        return waiter_dict(int(rest[0]), {proto.unhex(kv[0]): dec_w(kv[1], mk) for kv in rest[1:]})
     raise ValueError(head)
 
 
-def w_struct(rng, k, depth):
-    """a structure of depth <= depth holding awaitables 0..k-1 (each at least once) among plain leaves"""
+def w_struct(rng, k, depth, classes=False):
+    """a structure of depth <= depth holding awaitables 0..k-1 (each at least once) among plain leaves; classes: about every third dict is
+    an instance of a dict subclass (WAITER_DICTS)"""
     ids = list(range(k))
     if k and rng.random() < 0.2:
         ids.append(rng.randrange(k))   # the same awaitable awaited twice
@@ -349,7 +397,8 @@ def w_struct(rng, k, depth):
             return kids
         if r < 0.7:
             return tuple(kids)
-        return dict(zip(rng.sample(['k%d' % j for j in range(len(kids))], len(kids)), kids))   # insertion order is not sorted order
+        d = dict(zip(rng.sample(['k%d' % j for j in range(len(kids))], len(kids)), kids))   # insertion order is not sorted order
+        return DCW(rng.choice([1, 2, 2, 3, 4, 4, 5, 6]), d) if classes and rng.random() < 0.35 else d
     return build(ids, depth, True)
 
 
@@ -357,11 +406,16 @@ RESULTS = [100, 101, 'r2', [103, 'in-a-list'], None, 105.5, {'r': 6}]
 
 
 def gen_waiter(rng, tier):
+    # fixed cases: every dict subclass once, holding an awaitable and a plain leaf, bare and inside a list; a defaultdict without any awaitable
+    for n in sorted(WAITER_DICTS):
+        for ws in (enc_w(DCW(n, {'k1': Aw(0), 'k0': 7})), enc_w([DCW(n, {'k1': Aw(0), 'k0': 7}), {'a': DCW(n, {})}])):
+            yield dict(tag='waiter dict subclass %s' % WAITER_DICTS[n], lines=['(waiter events %s %s)' % (ws, enc([(0, RESULTS[0])]))])
+    yield dict(tag='waiter dict subclass defaultdict', lines=['(waiter events %s %s)' % (enc_w([DCW(2, {'a': 1})]), enc([]))])
     kmax = 4 if tier == 'quick' else 6
     per_k = ({0: 3, 1: 3, 2: 4, 3: 4, 4: 2} if tier == 'quick' else {0: 4, 1: 4, 2: 6, 3: 6, 4: 6, 5: 4, 6: 3})
     for k in range(kmax + 1):
         for s in range(per_k[k]):
-            w = w_struct(rng, k, rng.choice([1, 2, 3, 4]))
+            w = w_struct(rng, k, rng.choice([1, 2, 3, 4]), classes=True)
             ws = enc_w(w)
             for order in itertools.permutations(range(k)):
                 evs = [(i, RESULTS[i]) for i in order]
@@ -527,6 +581,11 @@ def run_line(state, sx):
         evs = [(int(e[1].split(':')[1]), proto.dec(e[2])) for e in args[1][1:]]
         done, res = run_waiter(args[0], evs)
         done2, res2 = run_waiter_chain(args[0], evs)
+        # the model's dict has no class (the wire reply spells every dict as (D ..)): the class, the key order and the attributes are checked here
+        orig = dec_w(args[0], lambda n: _AWAITED)
+        for d, r in ((done, res), (done2, res2)):
+            if d and not same_classes(orig, r):
+                raise AssertionError('waiter did not return the same nested structure: %r for %r' % (r, orig))
         if enc((done2, res2)) != enc((done, res)):
             return 'ok ' + enc((done2, res2))          # lazy hand-over awaitables behave differently from plain futures: report that outcome
         return 'ok ' + enc((done, res))
@@ -778,6 +837,14 @@ def compare(case, i, line, ir, mr):
             return ('divergence', 'implementation satisfies the statement (%s) but the model says %s' % (ir, mr))
         return ('divergence', 'companion of a shape the property does not pin down: implementation %s, model %s' % (ir, mr))
     return 'implementation %s, model %s' % (ir, mr)
+
+
+def shrink(case, still_fails):
+    """a waiter line is reported as generated: the generic shrinker also drops members of the (T id result) events, which leaves a line
+    neither side can read (model bad-op, runner IndexError) and reports THAT instead of the failure found.  Any other case: the generic shrinker"""
+    if any(l.startswith('(waiter ') for l in case.get('lines') or []):
+        return case
+    raise NotImplementedError('generic shrinking')
 
 
 def nontrivial(line, reply):
